@@ -120,7 +120,17 @@ func main() {
 		ruleOnly = flag.String("rule", "", "run a single rule and dump all its obligations (debugging)")
 		verbose  = flag.Bool("v", false, "print every obligation")
 	)
+	genInv := flag.Bool("gen-inventory", false, "print inventory_data.go for the repository as it is now")
 	flag.Parse()
+	if *genInv {
+		os.Setenv("PATH", goBinDir+":"+os.Getenv("PATH"))
+		repoRoot = *repo
+		if err := genInventory(*repo); err != nil {
+			fmt.Fprintln(os.Stderr, err)
+			os.Exit(2)
+		}
+		return
+	}
 	// go/packages resolves "go" through this process's PATH
 	os.Setenv("PATH", goBinDir+":"+os.Getenv("PATH"))
 	os.Unsetenv("GOWORK")
